@@ -27,7 +27,10 @@ ASSUMPTIONS = [
 ]
 
 SHAPES = ["list", "tuple", "generator", "lazy_iter", "iter_close", "empty_chunks",
-          "raise_before_start", "raise_after_start", "raise_mid_iter", "no_start_response"]
+          "raise_before_start", "raise_after_start", "raise_mid_iter", "no_start_response",
+          # a response object (Django / werkzeug style): an iterable with close() whose
+          # __iter__ returns a different object - close() belongs to the iterable (PEP 3333)
+          "iterable_close", "iterable_close_gen", "iterable_close_raise"]
 
 
 @st.composite
@@ -118,6 +121,27 @@ def build_app(case: Dict[str, Any], probe: Probe) -> Any:
         def close(self) -> None:
             probe.close_calls += 1
 
+    class ResponseObject:
+        def __init__(self, how: str) -> None:
+            self.how = how
+
+        def __iter__(self) -> Any:
+            if self.how == "iterable_close":
+                return iter(list(chunks))
+            return self._gen()
+
+        def _gen(self) -> Any:
+            k = min(case["raise_at"], len(chunks)) if self.how == "iterable_close_raise" else None
+            for i, c in enumerate(chunks):
+                if k is not None and i >= k:
+                    raise ValueError("scripted WSGI failure mid-iteration")
+                yield c
+            if k is not None:
+                raise ValueError("scripted WSGI failure mid-iteration")
+
+        def close(self) -> None:
+            probe.close_calls += 1
+
     def app(environ: dict, start_response: Any) -> Any:
         rec = dict(environ)
         rec["wsgi.input.data"] = environ["wsgi.input"].read()
@@ -126,8 +150,11 @@ def build_app(case: Dict[str, Any], probe: Probe) -> Any:
         if shape == "raise_before_start":
             raise ValueError("scripted WSGI failure before start_response")
         if shape in ("list", "tuple", "iter_close", "empty_chunks", "raise_after_start",
-                     "raise_mid_iter"):
+                     "raise_mid_iter", "iterable_close", "iterable_close_gen",
+                     "iterable_close_raise"):
             start_response(status, rheaders)
+        if shape.startswith("iterable_close"):
+            return ResponseObject(shape)
         if shape == "raise_after_start":
             raise ValueError("scripted WSGI failure after start_response")
         if shape in ("list", "empty_chunks"):
@@ -409,13 +436,15 @@ def run_case(case: Dict[str, Any]) -> CaseInfo:
 
     # ---- response / close / errors
     has_close = shape in ("iter_close", "lazy_iter", "raise_mid_iter", "no_start_response",
-                          "generator")
+                          "generator", "iterable_close", "iterable_close_gen",
+                          "iterable_close_raise")
     want_close = 1 if has_close else 0
     status = int(case["status"].split(" ")[0])
     want_headers = [(n.lower().encode("latin-1"), v.encode("latin-1"))
                     for n, v in case["resp_headers"]]
     got_body = b"".join(m.get("body", b"") for m in bodies)
-    if shape in ("list", "tuple", "generator", "lazy_iter", "iter_close", "empty_chunks"):
+    if shape in ("list", "tuple", "generator", "lazy_iter", "iter_close", "empty_chunks",
+                 "iterable_close", "iterable_close_gen"):
         if exc is not None:
             raise Violation("wsgi_valid_app_failed", f"shape={shape}: {exc!r}", shape=shape)
         if len(starts) != 1 or starts[0]["status"] != status:
@@ -436,7 +465,7 @@ def run_case(case: Dict[str, Any]) -> CaseInfo:
         if shape in ("raise_before_start", "raise_after_start", "no_start_response") and starts:
             raise Violation("wsgi_response_started_on_error", f"shape={shape}: {starts}",
                             shape=shape)
-        if shape == "raise_mid_iter":
+        if shape in ("raise_mid_iter", "iterable_close_raise"):
             k = min(case["raise_at"], len(chunks))
             if got_body != b"".join(chunks[:k]):
                 raise Violation("wsgi_body", f"before failure {got_body!r} != "
@@ -451,8 +480,149 @@ def run_case(case: Dict[str, Any]) -> CaseInfo:
     return CaseInfo(shape != "list" or near_limit or non_ascii, classes)
 
 
+# --------------------------------------------------------------------------- concurrent requests
+
+
+@st.composite
+def concurrent_case(draw: Any) -> Dict[str, Any]:
+    """2..3 requests in flight through ONE WSGIWrapper (it is a per-worker singleton): body
+    messages of the requests interleave in a generated order."""
+    n = draw(st.integers(2, 3))
+    limit = draw(st.sampled_from([8, 64, 64, 1 << 20]))
+    reqs = []
+    for i in range(n):
+        blen = draw(st.one_of(st.integers(0, 40), st.sampled_from([limit - 1, limit, limit + 1])))
+        blen = max(0, min(blen, 5000))
+        k = draw(st.integers(1, 4))
+        reqs.append({"body_len": blen, "seed": draw(st.integers(0, 250)),
+                     "splits": sorted(draw(st.lists(st.integers(0, max(blen, 1)), max_size=k)))})
+    slots = [i for i, r in enumerate(reqs) for _ in range(len(r["splits"]) + 1)]
+    order = draw(st.permutations(slots))
+    return {"limit": limit, "requests": reqs, "order": list(order),
+            "runner": draw(st.sampled_from(["asyncio", "trio"]))}
+
+
+def run_concurrent(case: Dict[str, Any]) -> CaseInfo:
+    from hypercorn.app_wrappers import WSGIWrapper
+
+    reqs = case["requests"]
+    bodies = [bytes((r["seed"] + 7 * j + i) % 256 for j in range(r["body_len"]))
+              for i, r in enumerate(reqs)]
+    pieces = []
+    for r, body in zip(reqs, bodies):
+        cuts = [0] + [min(c, len(body)) for c in r["splits"]] + [len(body)]
+        pieces.append([body[a:b] for a, b in zip(cuts, cuts[1:])])
+    seen: Dict[str, bytes] = {}
+
+    def app(environ: dict, start_response: Any) -> Any:
+        data = environ["wsgi.input"].read()
+        seen[environ["PATH_INFO"]] = data
+        start_response("200 OK", [("x-req", environ["PATH_INFO"])])
+        return [b"echo:", data]
+
+    sent: List[List[dict]] = [[] for _ in reqs]
+    errors: List[Optional[BaseException]] = [None for _ in reqs]
+
+    async def drive_all(lib: str) -> None:
+        if lib == "asyncio":
+            import asyncio
+
+            queues: List[Any] = [asyncio.Queue() for _ in reqs]
+            recv = [q.get for q in queues]
+            put = [q.put for q in queues]
+            pause = lambda: asyncio.sleep(0)  # noqa: E731
+        else:
+            import trio
+
+            chans = [trio.open_memory_channel(100) for _ in reqs]
+            recv = [c[1].receive for c in chans]
+            put = [c[0].send for c in chans]
+            pause = trio.lowlevel.checkpoint
+        wrapper = WSGIWrapper(app, case["limit"])
+
+        async def sync_spawn(func: Any, *args: Any) -> Any:
+            return func(*args)
+
+        def call_soon(func: Any, *args: Any) -> Any:
+            return run_sync(func(*args))
+
+        async def one(i: int) -> None:
+            scope = {"type": "http", "http_version": "1.1", "method": "POST", "scheme": "http",
+                     "path": f"/r{i}", "raw_path": f"/r{i}".encode(), "query_string": b"",
+                     "root_path": "", "headers": [], "client": ("192.0.2.7", 1),
+                     "server": ("198.51.100.1", 80), "extensions": {}, "state": {}}
+
+            async def send(m: dict) -> None:
+                sent[i].append(m)
+
+            try:
+                await wrapper(scope, recv[i], send, sync_spawn, call_soon)
+            except Exception as e:  # judged below
+                errors[i] = e
+
+        async def feeder() -> None:
+            nxt = [0 for _ in reqs]
+            for i in case["order"]:
+                k = nxt[i]
+                nxt[i] += 1
+                await put[i]({"type": "http.request", "body": pieces[i][k],
+                              "more_body": k < len(pieces[i]) - 1})
+                for _ in range(3):
+                    await pause()
+            for i in range(len(reqs)):
+                await put[i]({"type": "http.disconnect"})
+
+        if lib == "asyncio":
+            import asyncio
+
+            tasks = [asyncio.ensure_future(one(i)) for i in range(len(reqs))]
+            await feeder()
+            await asyncio.wait_for(asyncio.gather(*tasks), 30)
+        else:
+            import trio
+
+            with trio.fail_after(30):
+                async with trio.open_nursery() as nursery:
+                    for i in range(len(reqs)):
+                        nursery.start_soon(one, i)
+                    await feeder()
+
+    if case["runner"] == "asyncio":
+        import asyncio
+
+        asyncio.run(drive_all("asyncio"))
+    else:
+        import trio
+
+        trio.run(drive_all, "trio")
+    near = False
+    for i, (r, body) in enumerate(zip(reqs, bodies)):
+        starts = [m for m in sent[i] if m["type"] == "http.response.start"]
+        got = b"".join(m.get("body", b"") for m in sent[i] if m["type"] == "http.response.body")
+        near = near or abs(r["body_len"] - case["limit"]) <= 1
+        if r["body_len"] > case["limit"]:
+            if f"/r{i}" in seen or len(starts) != 1 or starts[0]["status"] != 400:
+                raise Violation("concurrent_oversize", f"request {i} ({r['body_len']} bytes, limit "
+                                f"{case['limit']}): reached app={f'/r{i}' in seen} starts={starts}")
+            continue
+        if errors[i] is not None:
+            raise Violation("concurrent_request_failed", f"request {i}: {errors[i]!r}")
+        if seen.get(f"/r{i}") != body:
+            raise Violation("concurrent_body_mixed", f"request {i}: wsgi.input held "
+                            f"{seen.get(f'/r{i}')!r}, the client sent {body!r} (order "
+                            f"{case['order']})")
+        if len(starts) != 1 or starts[0]["status"] != 200 or got != b"echo:" + body:
+            raise Violation("concurrent_response_mixed", f"request {i}: {starts} {got!r}")
+    interleaved = any(a != b for a, b in zip(case["order"], sorted(case["order"])))
+    return CaseInfo(interleaved, [f"n={len(reqs)}", "runner=" + case["runner"],
+                                  "interleaved" if interleaved else "sequential"]
+                    + (["at_limit"] if near else []), evals=len(reqs))
+
+
 def parts() -> List[Part]:
     return [
+        Part("concurrent", run_concurrent, strategy=concurrent_case, quick=600, thorough=20000,
+             rule="2..3 requests in flight through one WSGIWrapper, body messages interleaved"),
         Part("wrapper", run_case, strategy=lambda: case_strategy(["wrapper"]),
              quick=4000, thorough=100000, rule="WSGIWrapper driven synchronously"),
         Part("threads", run_case,
